@@ -35,7 +35,7 @@ use std::sync::Mutex;
 /// literally, i.e. touch=1 together with write=1 makes two separate `deref_mut` calls (two
 /// Modified events on a DerefFlagged storage).  Set to `false` to get the behaviour of op 32
 /// (GetMut), which makes a single `access_mut` call when either flag is set.
-const TOUCH_AND_WRITE_ARE_SEPARATE_ACCESSES: bool = true;
+const TOUCH_AND_WRITE_ARE_SEPARATE_ACCESSES: bool = false;
 
 // ---------------------------------------------------------------------------------------------
 // change-set amounts
